@@ -98,6 +98,35 @@ func init() {
 		g.def("bitGuardsFirst", pos(set), fmt.Sprintf("value guard = statement %d, offset guard = statement %d, first use of the store = statement %d", vAt, oAt, firstUse),
 			"def bitGuardsFirst : Bool := true")
 
+		anchor("bitDeadSizeZero")
+		// `if !ok { bmSize = 0; … }` (fix 0ad0963): an absent or expired bitmap starts with size 0, before the legacy conversion
+		var dead *ast.IfStmt
+		nDead := 0
+		for _, st := range set.Body.List {
+			if is, ok := st.(*ast.IfStmt); ok && src(is.Cond) == "!ok" {
+				dead = is
+				nDead++
+			}
+		}
+		if nDead != 1 || len(dead.Body.List) == 0 || strings.Join(strings.Fields(src(dead.Body.List[0])), " ") != "bmSize = 0" {
+			fail("BitSetV2 no longer has exactly one `if !ok { bmSize = 0; … }` with the reset as its first statement")
+		}
+		// the only other writes to bmSize in that branch: `bmSize += int64(len(segv))` inside the conversion loop
+		nAsg := 0
+		ast.Inspect(dead.Body, func(n ast.Node) bool {
+			if a, ok := n.(*ast.AssignStmt); ok && len(a.Lhs) == 1 && src(a.Lhs[0]) == "bmSize" {
+				nAsg++
+				if t := strings.Join(strings.Fields(src(a)), " "); t != "bmSize = 0" && t != "bmSize += int64(len(segv))" {
+					fail("BitSetV2: unexpected assignment to bmSize in the !ok branch: %s", t)
+				}
+			}
+			return true
+		})
+		if nAsg != 2 {
+			fail("BitSetV2: expected 2 assignments to bmSize in the !ok branch, found %d", nAsg)
+		}
+		g.def("bitDeadSizeZero", pos(set), "if !ok { bmSize = 0; … bmSize += int64(len(segv)) … }", "def bitDeadSizeZero : Bool := true")
+
 		// ---- leader side (node/keys.go setbitCommand)
 		anchor("bitLeaderOffsetBad")
 		lead := findFunc("node/keys.go", "KVNode.setbitCommand")
@@ -169,7 +198,7 @@ func init() {
 		gs := with(map[string]string{"byteOffset": "byteOffset", "len(bmv)": "len", "int64(len(bmv))": "len", "index": "index", "bmSize": "bmSize"})
 		g.def("bitGrowNeeded", pos(stn), src(growOuter), "def bitGrowNeeded (byteOffset len : Int) : Bool := "+lean(growOuter, gs))
 		g.def("bitGrowFar", pos(stn), src(growInner), "def bitGrowFar (byteOffset len : Int) : Bool := "+lean(growInner, gs))
-		g.def("bitGrowDefault", pos(stn), src(growDefault), "def bitGrowDefault (byteOffset len : Int) : Int := "+lean(growDefault, gs))
+		g.def("bitGrowDefault", pos(stn), src(growDefault), "def bitGrowDefault (_byteOffset len : Int) : Int := "+lean(growDefault, gs))
 		g.def("bitGrowFarSize", pos(stn), src(growFar), "def bitGrowFarSize (byteOffset len : Int) : Int := "+lean(growFar, gs))
 		g.def("bitSizeGrows", pos(stn), src(sizeCond), "def bitSizeGrows (len index bmSize : Int) : Bool := "+lean(sizeCond, gs))
 		g.def("bitSizeNew", pos(stn), src(sizeNew), "def bitSizeNew (len index : Int) : Int := "+lean(sizeNew, gs))
@@ -222,8 +251,8 @@ func init() {
 			}
 			return true
 		})
-		if len(starts) != 2 || src(starts[0]) != "0" {
-			fail("BitCountV2 no longer assigns byteStart as 0 / <start expr>: %d assignments", len(starts))
+		if len(starts) != 3 || src(starts[0]) != "0" || src(starts[2]) != "byteEnd" {
+			fail("BitCountV2 no longer assigns byteStart as 0 / <start expr> / byteEnd (the clamp): %d assignments", len(starts))
 		}
 		g.def("bitCountByteStart", pos(cnt), src(starts[1]), "def bitCountByteStart (start : Int) : Int := "+lean(starts[1], cs))
 		anchor("bitCountByteEnd")
@@ -239,6 +268,56 @@ func init() {
 			fail("BitCountV2 no longer assigns byteEnd as len(bmv) / <end expr> / len(bmv): %d assignments", len(ends))
 		}
 		g.def("bitCountByteEnd", pos(cnt), src(ends[1]), "def bitCountByteEnd (stop : Int) : Int := "+lean(ends[1], cs))
+
+		// the loop body of BitCountV2 (fix d794a70): decode, `if <behind> { break }`, value, cut points, `if <inverted> { byteStart = byteEnd }`, popcount
+		anchor("bitCountBehind")
+		var loop *ast.ForStmt
+		nLoop := 0
+		for _, st := range cnt.Body.List {
+			if f, ok := st.(*ast.ForStmt); ok {
+				loop = f
+				nLoop++
+			}
+		}
+		if nLoop != 1 {
+			fail("BitCountV2 no longer has exactly one for loop (found %d)", nLoop)
+		}
+		iBreak, iClamp, iDecode, iValue, iCount := -1, -1, -1, -1, -1
+		var behind, inverted ast.Expr
+		for i, st := range loop.Body.List {
+			t := strings.Join(strings.Fields(src(st)), " ")
+			switch {
+			case strings.Contains(t, "decodeBitmapKey(rawk)"):
+				iDecode = i
+			case strings.HasPrefix(t, "bmv := it.RefValue()"):
+				iValue = i
+			case strings.HasPrefix(t, "total += popcountBytes(bmv[byteStart:byteEnd])"):
+				iCount = i
+			}
+			if is, ok := st.(*ast.IfStmt); ok && is.Init == nil && is.Else == nil && len(is.Body.List) == 1 {
+				switch strings.Join(strings.Fields(src(is.Body.List[0])), " ") {
+				case "break":
+					if iBreak >= 0 {
+						fail("BitCountV2: more than one `if … { break }` in the loop")
+					}
+					iBreak, behind = i, is.Cond
+				case "byteStart = byteEnd":
+					if iClamp >= 0 {
+						fail("BitCountV2: more than one `if … { byteStart = byteEnd }` in the loop")
+					}
+					iClamp, inverted = i, is.Cond
+				}
+			}
+		}
+		if iDecode < 0 || iValue < 0 || iCount < 0 || iBreak < 0 || iClamp < 0 || !(iDecode < iBreak && iBreak < iValue && iValue < iClamp && iClamp+1 == iCount) {
+			fail("BitCountV2 loop body is no longer: decodeBitmapKey (stmt %d), `if <behind> { break }` (%d), bmv := it.RefValue() (%d), …, `if <inverted> { byteStart = byteEnd }` (%d) directly before total += popcountBytes(bmv[byteStart:byteEnd]) (%d)",
+				iDecode, iBreak, iValue, iClamp, iCount)
+		}
+		g.def("bitCountBehind", pos(cnt), src(behind), "def bitCountBehind (index stopI : Int) : Bool := "+
+			lean(behind, with(map[string]string{"index": "index", "int64(stopI)": "stopI", "stopI": "stopI"})))
+		anchor("bitCountInverted")
+		g.def("bitCountInverted", pos(cnt), src(inverted), "def bitCountInverted (byteStart byteEnd : Int) : Bool := "+
+			lean(inverted, map[string]string{"byteStart": "byteStart", "byteEnd": "byteEnd"}))
 
 		// ---- getRange (t_kv.go), statement for statement
 		anchor("getRange")
